@@ -274,6 +274,16 @@ class MemTermsReader(base.TermsReader):
             for i in xrange(start, len(terms)):
                 yield (fname, terms[i])
 
+    def items(self):
+        terminfos = self._segment._terminfos
+        for term in self.terms():
+            yield term, terminfos[term]
+
+    def items_from(self, fieldname, prefix):
+        terminfos = self._segment._terminfos
+        for term in self.terms_from(fieldname, prefix):
+            yield term, terminfos[term]
+
     def term_info(self, fieldname, text):
         return self._segment._terminfos[fieldname, text]
 
